@@ -727,15 +727,16 @@ class ScaledArrayView(ArrayView):
         return self.array.ndim > 1
 
     def max(self, *args, **kwargs):
-        if self._is_multi_element():
-            # each element has its own scale and offset
+        if self._is_multi_element() or args or kwargs:
+            # each element has its own scale and offset, and arguments
+            # such as `initial` are expressed in scaled values
             return np.array(self).max(*args, **kwargs)
-        return self._apply_scale(self.array.max(*args, **kwargs))
+        return self._apply_scale(self.array.max())
 
     def min(self, *args, **kwargs):
-        if self._is_multi_element():
+        if self._is_multi_element() or args or kwargs:
             return np.array(self).min(*args, **kwargs)
-        return self._apply_scale(self.array.min(*args, **kwargs))
+        return self._apply_scale(self.array.min())
 
     @property
     def dtype(self):
@@ -785,13 +786,20 @@ class ScaledArrayView(ArrayView):
                 # the second index selects one element or a set of elements
                 # of the points, so we need to slice the scales/offsets as well
                 scale, offset = self.scale[item[1]], self.offset[item[1]]
-                if np.ndim(sliced_array) == 0:
-                    return (sliced_array * scale) + offset
-                return self.__class__(sliced_array, scale, offset)
-            # item is (index, ...), a mask or a list of indices: it queries for
-            # all the elements of a point or set of point,
-            # so we don't slice the scales/offsets
-            return self.__class__(sliced_array, self.scale, self.offset)
+            else:
+                # item is (index, ...), a mask or a list of indices: it queries for
+                # all the elements of a point or set of point,
+                # so we don't slice the scales/offsets
+                scale, offset = self.scale, self.offset
+            if (
+                self._is_multi_element()
+                and np.ndim(sliced_array) < 2
+                and (np.ndim(sliced_array) == 0 or np.ndim(scale) > 0)
+            ):
+                # one value, or the elements of one point: each position has its own
+                # scale, they are returned as scaled values (like an integer index)
+                return (sliced_array * scale) + offset
+            return self.__class__(sliced_array, scale, offset)
 
     def __setitem__(self, key, value):
         # bail out on empty sequences
